@@ -34,9 +34,78 @@ CHECKS = {
     },
 }
 
+
+CHECKS.update({
+    "C03": {
+        "text": "Theorems: the parser model accepts exactly the token strings the documented grammar derives (soundness + completeness, hence unambiguity) and returns exactly the prescribed tree, for every token list, with the model's fuel proved sufficient. Tied to the code by comparing trees / error kinds of the real parser and the model on ALL strings of up to 5 (6) tokens, grammar-directed and malformed text, plus an independent evaluator written from the documented grammar run against the real parser.",
+        "design_ref": "DESIGN.md 3/C03",
+        "note": COMMON_NOTE + "Token level (characters are C11). The grammar relations build the implementation's grouping of '*'; its left-to-right VALUE is checked by the grammar oracle, not proved.",
+        "technique": "Lean 4 proof (parser soundness/completeness vs grammar relations) + exhaustive differential correspondence + grammar oracle",
+    },
+    "C04": {
+        "text": "Theorem: for every printable tree (any shape, not only parser outputs) the printed token list is accepted by the parser and the re-parsed tree evaluates identically at every assignment and has the same variables (via parser completeness). Correspondence: real str(tree) tokenized vs model printer tokens, real re-parse vs model, exact evaluation, on all small trees and on every rewrite result.",
+        "design_ref": "DESIGN.md 3/C04",
+        "note": COMMON_NOTE + "Token level; number formatter is a parameter with a round-trip hypothesis; right-nested equation chains: value agreement only (see theorems.json partial).",
+        "technique": "Lean 4 proof (print/parse round trip through the grammar) + differential correspondence + re-parse oracle",
+    },
+    "C05": {
+        "text": "Model pyEval of evaluate() with Python's int/float typing; theorems: exactness on the integer fragment at any magnitude, unbound variables are errors, division by zero is NaN and propagates, equations return the common value or raise. Correspondence: real evaluate() vs model on integer trees with operands up to 10^40 / exponents up to 200 / factorials up to 60 (exact) and mixed trees (few ulps).",
+        "design_ref": "DESIGN.md 3/C05",
+        "note": COMMON_NOTE + "The 'within a few ulps' clause is NOT a theorem (IEEE rounding is not formalised): doubles are idealised as exact rationals and compared with tolerance. Real powers and float overflow are outside the model.",
+        "technique": "Lean 4 proof over typed evaluator model + differential correspondence + big-integer oracle",
+    },
+    "C09": {
+        "text": "Theorems by induction over arbitrary finite sequences of applicable rewrites: expressions keep their value (refinement, transitive), equations keep their truth, the variable set is constant, an expression never becomes an equation. Correspondence: random walks of length 8 (40) on the real code, each step on clone_from_root, every state audited, compared with the start exactly, printed and re-parsed, earlier states re-snapshotted, each step replayed on the model.",
+        "design_ref": "DESIGN.md 3/C09",
+        "note": COMMON_NOTE,
+        "technique": "Lean 4 proof (induction over rewrite sequences from C01/C02/C07) + random-walk differential correspondence",
+    },
+    "C10": {
+        "text": "Theorems: the parser model is total with a closed outcome type, never runs out of its fuel, reports exactly the first unsupported character, and a long-lived parser answers like a fresh one after any history (failing parses included). Correspondence of error KINDS with the real exception classes on all short token strings, malformed streams, histories; link audit of returned trees; deep-input probes.",
+        "design_ref": "DESIGN.md 3/C10",
+        "note": COMMON_NOTE + "RecursionError is interpreter behaviour outside the model: probes only; one open known finding (flat product of ~1000 factors).",
+        "technique": "Lean 4 proof (totality, fuel sufficiency, history independence) + exhaustive differential correspondence + deep probes",
+    },
+    "C11": {
+        "text": "Theorems over the tokenizer model for ALL strings and both padding modes: lossless up to the three normalisations, exactly one end marker, padding mode only filters pad tokens, error iff (first) unsupported character, maximal-munch equations for digit/dot runs, letter runs (function name only if the WHOLE run matches) and single-character operators. Exhaustive correspondence on all strings of up to 4 (5) symbols over a 25-symbol alphabet.",
+        "design_ref": "DESIGN.md 3/C11",
+        "note": COMMON_NOTE,
+        "technique": "Lean 4 proof over tokenizer model + exhaustive differential correspondence + losslessness oracle",
+    },
+    "C12": {
+        "text": "Theorem: in the state-machine model of the parser object (two caches, token lists as heap cells handed out by reference, client pops) every answer of every history equals the fresh answer. Exhaustive histories of length <= 3 (4) over parse/tokenize/clear/pop on the real parser vs a fresh parser and vs the model.",
+        "design_ref": "DESIGN.md 3/C12",
+        "note": COMMON_NOTE,
+        "technique": "Lean 4 proof (invariant over op histories, refinement to stateless spec) + exhaustive history correspondence",
+    },
+    "C13": {
+        "text": "Theorems on the functional model: a clone has the same structure/payloads, only new identities, evaluates and prints identically; cloning from the root through the node at position i yields the copy at the same position inside a complete copy. Object-level oracle on the real code: signatures (ids, sides, flags), no shared object, independence under edits, both call styles of clone_from_root, generic BinaryTreeNode shapes.",
+        "design_ref": "DESIGN.md 3/C13",
+        "note": COMMON_NOTE + "id strings, child_on_left and independence under later mutation are object-level facts decided by the oracle, not theorems.",
+        "technique": "Lean 4 proof over functional clone model + object-level oracle on the real code",
+    },
+    "C14": {
+        "text": "Theorems for all binary shapes (0/left/right/2 children): each visit_* makes exactly the callbacks of its defining order cut after the first STOP with true depths and reports STOP correctly; the orders are permutations; path look-ups are sound and complete. Exhaustive correspondence on all shapes up to 6 (8) nodes x orders x stop positions; query oracle.",
+        "design_ref": "DESIGN.md 3/C14",
+        "note": COMMON_NOTE,
+        "technique": "Lean 4 proof (structural induction on shapes) + exhaustive differential correspondence",
+    },
+    "C15": {
+        "text": "Theorems: functional rotation preserves the in-order sequence; the literal pointer-level transcription of rotate() on a heap that represents a tree with distinct nodes yields a heap representing the rotated tree (all links consistent, grandparent redirected) for every non-root node; root is a no-op. Exhaustive cell-by-cell correspondence with the real object graph on all shapes up to 6 (8) nodes x nodes.",
+        "design_ref": "DESIGN.md 3/C15",
+        "note": COMMON_NOTE,
+        "technique": "Lean 4 proof (heap representation predicate, frame lemmas) + exhaustive differential correspondence",
+    },
+    "C18": {
+        "text": "The property's quantifier is bounded, so kernel evaluation is a proof at model level: for all 625 shapes up to 7 nodes the set of violated invariants equals a table regenerated each run from the committed findings (decide +kernel). Exhaustive EXACT coordinate correspondence (doubles are dyadic) with the real layout for all shapes up to 7 (9) nodes x 3 unit multipliers x single/repeated call; every violated (shape, invariant) must be a listed known finding.",
+        "design_ref": "DESIGN.md 3/C18",
+        "note": COMMON_NOTE + "The unchanged code violates the property from 4 nodes on: five open known findings keyed by the exact table findings_layout.json.",
+        "technique": "Lean 4 kernel-checked exhaustive table (decide +kernel) over a literal model + exact differential correspondence",
+    },
+})
+
 _PENDING = "check not built yet in this revision (model/theorems under construction); will be claimed when its check exists"
-NOT_APPLICABLE = {pid: _PENDING for pid in
-                  ["C03", "C04", "C05", "C08", "C09", "C10", "C11", "C12", "C13", "C14", "C15", "C16", "C17", "C18"]}
+NOT_APPLICABLE = {pid: _PENDING for pid in ["C08", "C16", "C17"]}
 
 NOTES = (
     "All checks: /venv/bin/python check.py <id> --tier quick|thorough (honours VERIF_SEED, VERIF_TIER); exit 2 = "
